@@ -230,7 +230,14 @@ def run_case(case) -> Outcome:
             ret = None
             err = None
             try:
-                ret = (await fn(*args, **kwargs)) if is_async else fn(*args, **kwargs)
+                if is_async and case.get("in_scope"):
+                    # the call is made from inside a scope (one scope per request)
+                    from haiway import ctx
+
+                    async with ctx.scope("c12"):
+                        ret = await fn(*args, **kwargs)
+                else:
+                    ret = (await fn(*args, **kwargs)) if is_async else fn(*args, **kwargs)
             except CacheErr as exc:
                 err = (type(exc).__name__, exc.args)
             finally:
@@ -367,6 +374,7 @@ def strategy(tier):
             "exp": exp,
             "bare": draw(st.integers(0, 9)) == 0,
             "bystander": draw(st.integers(0, 3)) == 0,
+            "in_scope": draw(st.integers(0, 3)) == 0,
             "ops": draw(st.lists(st.one_of(*ops), min_size=4, max_size=max_len)),
         }
 
